@@ -629,6 +629,10 @@ func (r *resolver) fillInRecursiveDefs(root *Module) error {
 						// watch for unrelated, unresolved uses in list of "resolved" defs that
 						// will required another pass
 						if u, isUses := subdef.(*Uses); isUses {
+							if u == entry.uses {
+								// replacing the placeholder with itself would never finish
+								return fmt.Errorf("%s - grouping uses itself directly", SchemaPath(u))
+							}
 							if r.trace {
 								fc.Debug.Printf("delayed: resubmitting %s.%s", entry.parent.Ident(), subdef.Ident())
 							}
